@@ -60,7 +60,11 @@ def make_nm(init):
 
 
 def xs(case):
-    return np.array([float(F(v)) for v in case["x"]], dtype=float)
+    vals = [F(v) for v in case["x"]]
+    if case.get("int_dtype") and vals and all(v.denominator == 1 for v in vals):
+        # the sample as an integer array / list of ints (0/1 polling data are often stored that way)
+        return np.array([int(v) for v in vals])
+    return np.array([float(v) for v in vals], dtype=float)
 
 
 def flo(a):
@@ -194,6 +198,8 @@ def fragile(case, ir, mr):
         if r in ("inf", "-inf", "nan"):
             continue
         a = abs(F(r))
+        if a > F(10) ** 300:
+            return True                      # float overflow region (not modelled)
         if a == 0 and not exact:
             return True                      # an exactly vanishing product is float noise (not 0) in the code
         if a != 0 and abs(a * (1 - F(1, 10 ** 5)) - atol) <= F(1, 10 ** 6) * atol:
@@ -421,6 +427,8 @@ def gen_case(rng, tier, op="test", force_test=None):
         un = F(init["u_now"])
         x = [min(v, un) for v in x]
     case = {"op": op, "init": init, "x": [S(v) for v in x], "stream": stream}
+    if x and all(F(v).denominator == 1 for v in x) and rng.chance(0.5):
+        case["int_dtype"] = True
     return case
 
 
@@ -446,6 +454,8 @@ def corpus():
         c("alpha_mart", ["1", "0", "1", "1", "0", "0"], N=6, eta="7/10"),
         c("alpha_mart", ["1", "1", "1", "0"], N=6, eta="7/10"),
         c("betting_mart", ["1", "1", "1", "1"], N=6, bet="fixed_bet", lam="1/2"),
+        # F27 (known finding): float overflow of the running product, then a factor that is exactly 0
+        c("alpha_mart", ["1"] * 120 + ["0"] + ["1"] * 3, N=10 ** 6, t="1/1000", eta="1", stream="overflow"),
     ]
 
 
@@ -628,6 +638,19 @@ def valid_for_wellformed(case):
     return True
 
 
+def _overflow_before(case, h, i):
+    """the NaN at index i is preceded by p-values that are exactly 0.0 although the sample total never
+    exceeded N*t there (so the 0 comes from the running product having overflowed to inf, not from the
+    `m < 0` rule): the class of the known finding F27"""
+    init = case["init"]
+    N, t = init["N"], F(init["t"])
+    x = [F(v) for v in case["x"]]
+    for k in range(i):
+        if h[k] == 0.0 and (N is None or sum(x[:k + 1]) <= N * t):
+            return True
+    return False
+
+
 def oracle_c11(case, ir):
     if not valid_for_wellformed(case):
         return None
@@ -641,7 +664,10 @@ def oracle_c11(case, ir):
         return {"what": f"history has {len(h)} entries for {len(case['x'])} observations"}
     for i, v in enumerate(h):
         if math.isnan(v) or v < 0 or v > 1:
-            return {"what": f"history entry {i} = {v!r} is not in [0,1]"}
+            out = {"what": f"history entry {i} = {v!r} is not in [0,1]"}
+            if math.isnan(v) and _overflow_before(case, h, i):
+                out["finding"] = "F27:overflow-then-zero-factor"
+            return out
     if math.isnan(p) or p < 0 or p > 1:
         return {"what": f"overall p-value {p!r} is not in [0,1]"}
     want = min(h) if case["init"]["ro"] else h[-1]
@@ -688,6 +714,19 @@ def oracle_c12(case, ir):
                                         for j, s in enumerate(prefix(x), start=1)])]
         if isinstance(par, dict):
             return None
+        # the shipped fixed parameters are what their definitions say
+        if test == "betting_mart" and (init.get("bet") in (None, "fixed_bet")):
+            lam0 = float(kw.get("lam", F(1, 2)))
+            for j, pj in enumerate(par):
+                if not (abs(pj - lam0) <= 1e-12 * max(1.0, abs(lam0))):
+                    return {"what": f"fixed_bet: the bet on observation {j + 1} is {pj!r}, the fixed bet is lam = {lam0!r}"}
+        if test == "alpha_mart" and init.get("estim") in (None, "fixed_alternative_mean") and ("eta" in kw or init.get("estim") is None):
+            eta0 = kw.get("eta", t + (u - t) / 2 if init.get("u_now") is None else t + (F(init["u"]) - t) / 2)
+            for j, (s0, pj) in enumerate(zip(prefix(x), par)):
+                want = eta0 if N is None else (N * eta0 - s0) / (N - j)
+                want = min(want, u)
+                if abs(pj - float(want)) > 1e-9 * max(1.0, abs(float(want))):
+                    return {"what": f"fixed_alternative_mean: eta_{j + 1} = {pj!r} but min(u, (N eta - S_j)/(N-j+1)) = {float(want)!r}"}
         for j, (xj, m) in enumerate(zip(x, mu)):
             pj = par[j]
             if math.isnan(pj) or math.isinf(pj):
